@@ -2,6 +2,7 @@
 interrupt injection."""
 import math
 import random
+import linecache
 import sys
 
 import numpy as np
@@ -288,6 +289,10 @@ def run_interruptible(fn, k):
 
     def local(frame, event, arg):
         if event == "line":
+            # a `with` line is visited a second time when the block is left, just before __exit__ is called; CPython does
+            # not run signal handlers at that point (a real Ctrl-C cannot skip __exit__), so it is no interrupt point
+            if linecache.getline(frame.f_code.co_filename, frame.f_lineno).lstrip().startswith(("with ", "async with ")):
+                return local
             state["n"] += 1
             if k is not None and state["n"] == k:
                 raise SimInterrupt()
